@@ -289,7 +289,11 @@ def _one_case(rep, spec, index, edit):
             F.append(1.0)
         else:
             p_kg = gen.refmodel_permeance_kg(sc.initial_permeances[i], comps[i])
-            F.append(p_kg / f(w_init, sc.t0))
+            f0_ = f(w_init, sc.t0)
+            if not (f0_ > 0 and math.isfinite(f0_)):
+                rep.count("fitted_function_not_positive_at_the_initial_state_skipped")  # exp underflow of a wild fit: no factor is defined
+                return
+            F.append(p_kg / f0_)
             rep.check("step 0 reproduces the supplied initial permeances", abs(perms[0][i].value - p_kg), 8 * EPS * p_kg, dict(case, component=i),
                       {"got": perms[0][i].value, "supplied_kg": p_kg})
     for k in range(len(perms)):
